@@ -1476,17 +1476,26 @@ class Engine:
             self.throw("IndexError", "index out of range")
         return i
 
-    def slice_bounds(self, sl, n):
+    def slice_range(self, sl, n):
+        """positions selected by a slice of a sequence of length n (concrete, value-forking symbolic bounds)"""
         lo = None if sl.lower is None else self.ev(sl.lower)
         hi = None if sl.upper is None else self.ev(sl.upper)
-        if sl.step is not None:
-            st = self.ev(sl.step)
-            if st is not None and st != 1:
-                raise Unsupported("slice step")
+        st = None if sl.step is None else self.ev(sl.step)
+        for v in (lo, hi, st):
+            if v is not None and not numeric(v.v if isinstance(v, EnumVal) else v):
+                self.throw("TypeError", "slice indices must be integers or None")
         lo = None if lo is None else self.concretize(lo)
         hi = None if hi is None else self.concretize(hi)
-        a, b, _ = slice(lo, hi).indices(n)
-        return a, max(a, b)
+        st = None if st is None else self.concretize(st)
+        if st == 0:
+            self.throw("ValueError", "slice step cannot be zero")
+        return range(*slice(lo, hi, st).indices(n))
+
+    def slice_bounds(self, sl, n):
+        r = self.slice_range(sl, n)
+        if r.step != 1:
+            raise Unsupported("extended slice where a plain one is required")
+        return r.start, max(r.start, r.stop)
 
     def e_Subscript(self, e):
         o = self.ev(e.value)
@@ -1496,10 +1505,10 @@ class Engine:
             kind, seq = self.seq_of(o)
             if kind is None:
                 raise Unsupported(f"slice of {type(o).__name__}")
-            lo, hi = self.slice_bounds(e.slice, len(seq))
+            rng = self.slice_range(e.slice, len(seq))
             if isinstance(o, str):
-                return o[lo:hi]
-            r = seq[lo:hi]
+                return "".join(o[i] for i in rng)
+            r = [seq[i] for i in rng]
             if kind == "bytes":
                 return self.mk_bytes(r, o.mutable, o.kind)
             if kind == "str":
@@ -1555,6 +1564,20 @@ class Engine:
         raise Unsupported(f"item assignment on {type(o).__name__}")
 
     def setslice(self, o, sl, v):
+        if isinstance(o, (Bytes, PList)) and sl.step is not None:
+            if isinstance(o, Bytes) and not o.mutable:
+                self.throw("TypeError", "object does not support item assignment")
+            rng = self.slice_range(sl, len(o.items))
+            if rng.step != 1:
+                src = list(v.items) if isinstance(v, (Bytes, PList)) else self.iterate(v)
+                if len(src) != len(rng):
+                    self.throw("ValueError", "attempt to assign sequence of wrong size to extended slice")
+                for pos, x in zip(rng, src):
+                    if isinstance(o, Bytes):
+                        self.check_byte(x)
+                        x = as_byte(x)
+                    o.items[pos] = self.merged(x, o.items[pos])
+                return
         if isinstance(o, Bytes):
             if not o.mutable:
                 self.throw("TypeError", "object does not support item assignment")
